@@ -287,7 +287,7 @@ def extra_checks(ctx, cases, impl_lines, model_lines):
     return res or bg_clone_checks(ctx, cases, model_lines)
 
 
-SETUP_FEATURE_BUILDS = [("c07", "background_rotation")]
+SETUP_FEATURE_BUILDS = ["background_rotation"]   # bg_clone_checks
 
 
 def bg_clone_checks(ctx, cases, model_lines_):
